@@ -88,6 +88,16 @@ CHECKS = {
         note='Not applicable (assumed, F2/F3): that the OS file lock really excludes another process/handle and that joined threads have stopped. Marker longer than 6 bytes behaves like its prefix.',
         technique='MIR symbolic execution over symbolic byte arrays + z3; event-order obligations; native replay',
     ),
+    'C18': dict(
+        category='model_checking',
+        text='MIR symbolic execution (the assigner and factories are uninterpreted callables, handle identity through Arc clones): Database::keyspace and recover_keyspaces '
+             'install exactly assigner(this keyspace\'s name); the builder stores the assigner; from_kvs never yields a factory; apply_to_base_config forwards the factory to the tree. '
+             'Counterexamples are replayed natively with a key-deterministic filter assigned to one of two keyspaces, before and after reopen.',
+        design_ref='DESIGN.md §5 C18',
+        note='Not applicable to this technique (clause): verdict semantics - kept items untouched, removed/replaced items stay so - are decided inside lsm-tree\'s compaction stream '
+             '(contract E5); they are exercised by the native battery only.',
+        technique='MIR symbolic execution (dataflow / handle identity) + z3 path feasibility; native filter battery',
+    ),
 }
 
 NOT_YET = {}
